@@ -10,6 +10,9 @@ Definition aout_fine (o : aout) : Prop :=
 Lemma aout_fine_ok x o : aout_fine o -> xout_ok (XAddTypes (fst x) (snd x)) (XA o) = true.
 Proof. intros [->|[->|[->|[->| ->]]]]; reflexivity. Qed.
 
+Lemma aout_fine_ok_decl x o : aout_fine o -> xout_ok (XDeclare (fst x) (snd x)) (XA o) = true.
+Proof. intros [->|[->|[->|[->| ->]]]]; reflexivity. Qed.
+
 Section Sim.
   Variable cfg : config.
   Variables L base : nat.
@@ -102,7 +105,7 @@ Lemma xstep_sim cfg st x st' r :
   inv st -> xop_wf cfg x = true -> xstep cfg st x = (st', r) ->
   inv st' /\ spec_xstep cfg (abs st) x = (abs st', xproject r) /\ xout_ok x r = true.
 Proof.
-  intros Hi Hw H. destruct x as [o|l ts]; cbn [xstep spec_xstep xop_wf] in *.
+  intros Hi Hw H. destruct x as [o|l ts|l ts]; cbn [xstep spec_xstep xop_wf] in *.
   - destruct (step cfg st o) as [st1 r1] eqn:E.
     destruct (step_sim cfg st o st1 r1 Hi Hw E) as (Hi1 & Hs & Hok).
     rewrite Hs. injection H as <- <-. split; [exact Hi1|]. split; [reflexivity|exact Hok].
@@ -112,6 +115,13 @@ Proof.
       destruct (exec_sim cfg l (length st) _ st st1 o1 Hi Hw E) as (Hi1 & Hs & Hf).
       rewrite Hs. injection H as <- <-. split; [exact Hi1|]. split; [reflexivity|].
       exact (aout_fine_ok (l, ts) o1 Hf).
+    + injection H as <- <-. split; [exact Hi|]. split; reflexivity.
+  - rewrite abs_length.
+    destruct (Nat.ltb l (length st)).
+    + destruct (exec (step cfg) add_node (@length lnode) l (length st) st (compile_decl (cfg_auth cfg) ts)) as [st1 o1] eqn:E.
+      destruct (exec_sim cfg l (length st) _ st st1 o1 Hi Hw E) as (Hi1 & Hs & Hf).
+      rewrite Hs. injection H as <- <-. split; [exact Hi1|]. split; [reflexivity|].
+      exact (aout_fine_ok_decl (l, ts) o1 Hf).
     + injection H as <- <-. split; [exact Hi|]. split; reflexivity.
 Qed.
 
